@@ -64,7 +64,7 @@ pub fn check(ctx: &Ctx) -> i32 {
         for &lead in &leads {
             for nv in 2..=3usize {
                 for na in [2usize, 3, 8, 12] {
-                    for asteps in [vec![1024.0 / 48000.0], vec![1024.0 / 44100.0], vec![0.02], vec![0.0], vec![0.0, 1024.0 / 48000.0], vec![0.02, 0.0]] {
+                    for asteps in [vec![1024.0 / 48000.0], vec![1024.0 / 44100.0], vec![0.02], vec![0.0], vec![0.0, 1024.0 / 48000.0], vec![0.02, 0.0], vec![0.5, 0.02], vec![0.003, 0.5]] {
                         // longer audio runs only with the two real frame spacings (44.1 kHz
                         // spacing is 2089.79.. ticks: per-step rounding would drift)
                         if na > 3 && (asteps.len() > 1 || asteps[0] == 0.0 || asteps[0] == 0.02) {
@@ -216,7 +216,7 @@ pub fn check(ctx: &Ctx) -> i32 {
         &tally,
         Meta {
             level: "model_checking",
-            rule: format!("every A/V history over: first video decode time {{0, 1/30, 1, 10 s}} x first video composition offset {{0, +2 frames}} x audio start minus first video presentation {{0, 1 tick, 1024/48000, 0.25, 3 s}} x 2-3 video frames x 2-3 audio frames x audio step pattern {{1024/48000, 1024/44100, 0.02, 0, (0, 1024/48000), (0.02, 0)}}, plus runs of 8 and 12 audio frames at the 48 kHz and 44.1 kHz AAC spacings, plus every audio step sequence of 2..{jmax} steps over {{600, 1200, 1800, 3000}} ticks ({n_jitter} sequences x AAC/Opus), plus every standard AAC sample rate below 65536 Hz x 3 sub-sample displacement patterns (0-30 microseconds) x 2 start times x both layouts, plus {n_conv} encode_video/encode_audio histories (every sequence of 2..5 audio frame lengths over Opus {{10, 20, 40, 60 ms}} and AAC {{1024, 2048}}), x {{AAC, Opus}} x both layouts x codecs; executed on the real muxer; per-track presentation timelines rebuilt from stts/ctts (+ edit list if present, empty edits and media_time honoured) and every audio sample's presentation time relative to the first video frame compared with the submitted difference (tolerance 1 tick). Distinct by output bytes."),
+            rule: format!("every A/V history over: first video decode time {{0, 1/30, 1, 10 s}} x first video composition offset {{0, +2 frames}} x audio start minus first video presentation {{0, 1 tick, 1024/48000, 0.25, 3 s}} x 2-3 video frames x 2-3 audio frames x audio step pattern {{1024/48000, 1024/44100, 0.02, 0, (0, 1024/48000), (0.02, 0), (0.5, 0.02), (0.003, 0.5): pauses and overlaps relative to the packets' coded durations}}, plus runs of 8 and 12 audio frames at the 48 kHz and 44.1 kHz AAC spacings, plus every audio step sequence of 2..{jmax} steps over {{600, 1200, 1800, 3000}} ticks ({n_jitter} sequences x AAC/Opus), plus every standard AAC sample rate below 65536 Hz x 3 sub-sample displacement patterns (0-30 microseconds) x 2 start times x both layouts, plus {n_conv} encode_video/encode_audio histories (every sequence of 2..5 audio frame lengths over Opus {{10, 20, 40, 60 ms}} and AAC {{1024, 2048}}), x {{AAC, Opus}} x both layouts x codecs; executed on the real muxer; per-track presentation timelines rebuilt from stts/ctts (+ edit list if present, empty edits and media_time honoured) and every audio sample's presentation time relative to the first video frame compared with the submitted difference (tolerance 1 tick). Distinct by output bytes."),
             bound: "2-3 video frames, 2-3 audio frames (8 and 12 for the two constant spacings)".into(),
             exhaustive: true,
             assumptions: vec!["the known finding C09/no-start-offset is matched only when neither track has an edit list and every audio sample is off by exactly the lost start offset; any other deviation is reported as a violation".into()],
